@@ -85,7 +85,7 @@ def _scale_matrix(A):
     v2 = v1 / np.exp(0.1)
     M2 = np.diag(v1)
     M3 = np.diag(v2)
-    m_scale = np.abs(10 * (M1 - M2)) + M3
+    m_scale = 10 * (M1 - M2) + M3
     # Convert lower triangle to symmetric
     irows, icols = np.triu_indices(len(m_scale), 1)
     m_scale[irows, icols] = m_scale[icols, irows]
